@@ -19,7 +19,7 @@ RULE = (
     "fallthrough, return and branch edges)."
 )
 RULE += (
-    " More calls into one function and more function-centred edit sets (incl. a second returning patch) than the other listing checks."
+    " More calls into one function and more function-centred edit sets (incl. a second returning patch) than the other listing checks; pairs of call blocks to one callee of which one is deleted, callees with many call sites that always return."
 )
 ASSUMPTIONS = [
     "don't-care classes 1-4 of DESIGN 2.1 (halt fallthrough, no physically following code, edges of retained zero-sized blocks, predecessor of a proxy-deleted block)",
